@@ -219,6 +219,11 @@ func scheduleText(r Result) []string {
 	return out
 }
 
+// DefaultPolicies are the canonical orders searched when a scenario names none: the default
+// order to the full departure bound, then the same order and the library-first order with
+// sticky departures to one departure each.
+var DefaultPolicies = []string{"", vsched.Sticky, vsched.LibFirst + vsched.Sticky}
+
 // Explore enumerates every schedule of sc with at most bound departures from the
 // canonical schedule. Level-1 subtrees are distributed over the shards.
 func Explore(c *vfw.Ctx, t *testing.T, sc Scenario, bound int) Stats {
@@ -290,6 +295,7 @@ func Explore(c *vfw.Ctx, t *testing.T, sc Scenario, bound int) Stats {
 		}
 		return true
 	}
+	curBound := bound
 	var sub func(prefix []int, dep int)
 	sub = func(prefix []int, dep int) {
 		if c.Expired() {
@@ -305,7 +311,7 @@ func Explore(c *vfw.Ctx, t *testing.T, sc Scenario, bound int) Stats {
 		if !handle(r, prefix) {
 			return
 		}
-		if dep >= bound {
+		if dep >= curBound {
 			return
 		}
 		for i := len(prefix); i < len(r.Trace); i++ {
@@ -321,11 +327,16 @@ func Explore(c *vfw.Ctx, t *testing.T, sc Scenario, bound int) Stats {
 	}
 	policies := sc.Policies
 	if len(policies) == 0 {
-		policies = []string{""}
+		policies = DefaultPolicies
 	}
 	var root Result
-	for _, pol := range policies {
+	for pi, pol := range policies {
 		curDemote, current = pol, nil
+		// the first policy is searched to the full bound, the others to one departure
+		curBound = bound
+		if pi > 0 && curBound > 1 {
+			curBound = 1
+		}
 		// root: every shard runs it to enumerate the level-1 alternatives; shard 0 accounts for it
 		root = RunOnce(t, sc, nil, onLeak, pol)
 		if c.Shard == 0 {
@@ -335,10 +346,8 @@ func Explore(c *vfw.Ctx, t *testing.T, sc Scenario, bound int) Stats {
 		} else if root.Diverged != "" {
 			return st
 		}
-		if pol != "" {
-			c.Add("libfirst_policy_roots:"+sc.Name, 1)
-		}
-		if bound >= 1 {
+		c.Add("policy_searches:"+polName(pol), 1)
+		if curBound >= 1 {
 			k := 0
 			for i := 0; i < len(root.Trace); i++ {
 				for alt := 1; alt < len(root.Trace[i].Enabled); alt++ {
